@@ -45,6 +45,9 @@ type Pin struct {
 	After bool `json:"after"`
 	// Err: instead of a process death the step fails with ENOSPC
 	Err bool `json:"err,omitempty"`
+	// Short: the failing write stores the first half of its bytes (disk full
+	// in the middle of a write); judged at the next start only
+	Short bool `json:"short,omitempty"`
 }
 
 // Case is a session history.
@@ -56,9 +59,10 @@ type Case struct {
 }
 
 type engine struct {
-	base     string
-	n        int
-	defaults map[string]slip.Object
+	shortWrite bool
+	base       string
+	n          int
+	defaults   map[string]slip.Object
 }
 
 func init() { harness.Register(&engine{}) }
@@ -825,13 +829,28 @@ func (e *engine) Execute(raw json.RawMessage) (vd harness.Verdict) {
 				}
 			}
 			// second fault kind: the step fails with "no space left on device"
-			if ops[i].K != "restart" && (c.Pin == nil || (c.Pin.Err && c.Pin.Op == i && c.Pin.Step == k)) {
-				if v := e.crashRun(ops, i, k, false, true, snaps, a); v != nil {
-					pinned := c
-					pinned.Pin = &Pin{Op: i, Step: k, Err: true}
-					vd.Pinned, _ = json.Marshal(pinned)
-					vd.V = v
-					return
+			if ops[i].K != "restart" {
+				for _, short := range []bool{false, true} {
+					if c.Pin != nil && !(c.Pin.Err && c.Pin.Op == i && c.Pin.Step == k && c.Pin.Short == short) {
+						continue
+					}
+					if short && ops[i].K != "hadd" && ops[i].K != "sadd" {
+						// A torn tail is only meaningful for the append-only
+						// files. config.lisp is truncated and rewritten by one
+						// write; a short write there is outside the death model
+						// of the property (a completed write survives).
+						continue
+					}
+					e.shortWrite = short
+					v := e.crashRun(ops, i, k, false, true, snaps, a)
+					e.shortWrite = false
+					if v != nil {
+						pinned := c
+						pinned.Pin = &Pin{Op: i, Step: k, Err: true, Short: short}
+						vd.Pinned, _ = json.Marshal(pinned)
+						vd.V = v
+						return
+					}
 				}
 			}
 		}
@@ -862,6 +881,7 @@ func (e *engine) crashRun(ops []Op, i, k int, after bool, ioErr bool, snaps []sn
 		// an error) and the session is then restarted: what is on disk must
 		// be as consistent as after a death.
 		w.sess.ArmError(k, syscall.ENOSPC)
+		w.sess.SetShortWrite(e.shortWrite)
 		crashed, _ := w.apply(ops[i])
 		if crashed {
 			return viol("harness", "unexpected crash in an I/O error run")
@@ -913,6 +933,12 @@ func (e *engine) crashRun(ops []Op, i, k int, after bool, ioErr bool, snaps []sn
 		return viol("crash-stash-inconsistent",
 			"death %s step %d of op %d (%s): next start loaded stash %s; before the op %s, after it %s",
 			side, k, i, ops[i].K, show(got.stash), show(A.stash), show(B.stash))
+	}
+	if ioErr && e.shortWrite {
+		// A fragment without a newline is left at the end of the file. It must
+		// not be loaded (checked above); what later appends make of it is
+		// outside the death model of the property and is not judged.
+		return nil
 	}
 	// The user carries on from what was loaded; every later clean restart
 	// must still be faithful (this is how a stale temporary file shows).
